@@ -3,7 +3,7 @@
    case   = ( cap ( event ... ) )
    event  = ( req tag lang compiler ( arg ... ) ( (var val) ... ) ( (var val) ... ) cwd ( input ... )
                   ( (role path optional) ... ) ppkey ( pre_ok ok cacheable size ( role ... ) ) )
-          | ( delete path ) | ( restart ) | ( idle )
+          | ( delete path ) | ( restart ) | ( idle ) | ( damage ( req ... ) newsize )   (the entry of that request)
    lang   = c | rust          ppkey = ( ) | ( id )
    arg    = ( h B ) | ( p B ) | ( sd B ) | ( cfg B ) | ( ext path digest ) | ( lp B ) | ( out B ) | ( u B )
    result = ( obs ... )       one per event
@@ -77,13 +77,19 @@ Definition dec_req (l : list sx) : option (request * oracle_row) :=
   | _ => None
   end.
 
-Inductive ev := EvReq (r : request) (o : oracle_row) | EvDelete (p : bytes) | EvRestart | EvIdle | EvBad.
+Inductive ev := EvReq (r : request) (o : oracle_row) | EvDelete (p : bytes) | EvRestart | EvIdle
+  | EvDamage (r : request) (sz : N) | EvBad.
 
 Definition dec_event (x : sx) : ev :=
   match x with
   | SL (t :: rest) =>
       if is_sym "req" t then match dec_req rest with Some (r, o) => EvReq r o | None => EvBad end
       else if is_sym "delete" t then match rest with [p] => EvDelete (get_B p) | _ => EvBad end
+      else if is_sym "damage" t then
+        match rest with
+        | [SL (_ :: rq); sz] => match dec_req rq with Some (r, _) => EvDamage r (get_N sz) | None => EvBad end
+        | _ => EvBad
+        end
       else if is_sym "restart" t then EvRestart
       else if is_sym "idle" t then EvIdle
       else EvBad
@@ -119,6 +125,7 @@ Definition to_event (e : ev) : option event :=
   | EvDelete p => Some (EDelete p)
   | EvRestart => Some ERestart
   | EvIdle => Some EIdle
+  | EvDamage r sz => Some (EDamage (req_path enc_fp r) sz)
   | EvBad => None
   end.
 
